@@ -30,8 +30,8 @@ SHIM_FLAGS = ["-DVERIF_SHIM", "-Dmmap=shim_mmap", "-Dmunmap=shim_munmap", "-Dmpr
 # (mode, variant, nops) -- variant bits: see mode_R / mode_P / mode_A of harness/f_zero.c
 PLAN_QUICK = [("R", 0, 120), ("R", 1, 120), ("R", 6, 100), ("R", 12, 120), ("R", 24, 120), ("R", 29, 100),
               ("P", 0, 1200), ("P", 1, 1200), ("P", 3, 1200),
-              ("A", 0, 220), ("A", 1, 220), ("A", 2, 200), ("A", 6, 200), ("A", 8, 160), ("A", 5, 200)]
-PLAN_THOROUGH = PLAN_QUICK + [("R", 2, 200), ("R", 17, 200), ("R", 13, 200), ("P", 2, 2500), ("A", 3, 400), ("A", 4, 400), ("A", 7, 400), ("A", 9, 300)]
+              ("A", 0, 220), ("A", 1, 220), ("A", 2, 200), ("A", 6, 200), ("A", 8, 160), ("A", 5, 200), ("A", 16, 160)]
+PLAN_THOROUGH = PLAN_QUICK + [("R", 2, 200), ("R", 17, 200), ("R", 13, 200), ("P", 2, 2500), ("A", 3, 400), ("A", 4, 400), ("A", 7, 400), ("A", 9, 300), ("A", 18, 300)]
 
 
 def build(res):
